@@ -101,7 +101,7 @@ func (c config) fingerprint() string {
 var urlVariants = map[string][]string{
 	"https-domain":    {"https://node.zorgverlener.nl", "https://nuts.zorgverlener.nl:8443", "https://zorgverlener.nl/nuts", "https://NODE.Zorgverlener.NL"},
 	"http-domain":     {"http://node.zorgverlener.nl", "http://nuts.zorgverlener.nl:8080"},
-	"https-ip":        {"https://192.0.2.15", "https://10.0.0.5:8443", "https://[2001:db8::15]", "https://127.0.0.1"},
+	"https-ip":        {"https://192.0.2.15", "https://10.0.0.5:8443", "https://[2001:db8::15]", "https://127.0.0.1", "https://10.0.0.1.", "https://127.0.0.1.:8443", "https://169.254.169.254./x"},
 	"https-localhost": {"https://localhost", "https://localhost:8443"},
 	"https-reserved": {"https://node.local", "https://nuts.test", "https://node.example", "https://www.example.com", "https://nuts.example.org", "https://nuts.example.net",
 		"https://node.invalid", "https://nuts.lan", "https://nuts.home", "https://node.corp", "https://nuts.localdomain", "https://node.localhost", "https://NUTS.LOCAL"},
@@ -111,7 +111,7 @@ var urlVariants = map[string][]string{
 
 var tlsVariants = map[string][]string{
 	"full":    {""},
-	"none":    {""},
+	"none":    {"", "offload-incoming", "offload-incoming+clientcertheader"}, // TLS offloading configured, but still no certificate: network TLS is off
 	"partial": {"cert-only", "key-only", "no-truststore", "truststore-only"},
 	"legacy":  {"network.certfile", "network.certkeyfile", "network.truststorefile", "network.all", "network.all+tls"},
 }
@@ -298,6 +298,11 @@ func materialise(c config, dir string, w world) launch {
 		add("tls.certfile", cert)
 		add("tls.certkeyfile", cert)
 		add("tls.truststorefile", trust)
+	case "none/offload-incoming":
+		add("tls.offload", "incoming")
+	case "none/offload-incoming+clientcertheader":
+		add("tls.offload", "incoming")
+		add("tls.certheader", "X-SSL-CERT")
 	case "partial/cert-only":
 		add("tls.certfile", cert)
 		add("tls.truststorefile", trust)
@@ -588,7 +593,15 @@ func generate(r *ev.Run, secrets []string) []config {
 	rnd = r.Rand("g2")
 	backgrounds := r.Pick(2, 12)
 	for _, d := range devs {
-		for b := 0; b < backgrounds; b++ {
+		// every spelling of a deviation that has several (IP literals, TLS variants) is visited at least once in every tier
+		nb := backgrounds
+		if d.f == fURL && d.v == "https-ip" && len(urlVariants[d.v]) > nb {
+			nb = len(urlVariants[d.v])
+		}
+		if d.f == fTLS && len(tlsVariants[d.v]) > nb {
+			nb = len(tlsVariants[d.v])
+		}
+		for b := 0; b < nb; b++ {
 			row := make([]int, len(secure))
 			for f := range row {
 				row[f] = rnd.Intn(len(secure[f]))
@@ -602,9 +615,9 @@ func generate(r *ev.Run, secrets []string) []config {
 				c.V[fDID] = "web"
 			}
 			concretise(&c, rnd, secrets)
-			if d.f == fURL && d.v == "https-reserved" {
-				// walk through the reserved names instead of drawing them
-				c.URL = urlVariants["https-reserved"][(b+int(r.Seed()))%len(urlVariants["https-reserved"])]
+			if d.f == fURL && (d.v == "https-reserved" || d.v == "https-ip") {
+				// walk through the reserved names / IP spellings instead of drawing them
+				c.URL = urlVariants[d.v][(b+int(r.Seed()))%len(urlVariants[d.v])]
 			}
 			if d.f == fTLS && len(tlsVariants[d.v]) > 1 {
 				c.TLSVar = tlsVariants[d.v][(b+int(r.Seed()))%len(tlsVariants[d.v])]
